@@ -25,6 +25,7 @@ struct Args {
     tier: String,
     seed: u64,
     cases: Option<u64>,
+    scale_pct: u64,
     threads: usize,
     replay: Option<PathBuf>,
     extra: Vec<PathBuf>,
@@ -41,6 +42,7 @@ fn parse_args() -> Result<Args, String> {
         tier: std::env::var("VERIF_TIER").unwrap_or_else(|_| "quick".into()),
         seed: std::env::var("VERIF_SEED").ok().and_then(|s| s.trim().parse().ok()).unwrap_or(0),
         cases: None,
+        scale_pct: 100,
         threads: 16,
         replay: None,
         extra: Vec::new(),
@@ -56,6 +58,7 @@ fn parse_args() -> Result<Args, String> {
             "--tier" => a.tier = it.next().ok_or("--tier needs a value")?,
             "--seed" => a.seed = it.next().ok_or("--seed needs a value")?.parse().map_err(|_| "bad seed")?,
             "--cases" => a.cases = Some(it.next().ok_or("--cases needs a value")?.parse().map_err(|_| "bad cases")?),
+            "--scale-pct" => a.scale_pct = it.next().ok_or("--scale-pct needs a value")?.parse().map_err(|_| "bad percentage")?,
             "--threads" => a.threads = it.next().ok_or("--threads needs a value")?.parse().map_err(|_| "bad threads")?,
             "--replay" => a.replay = Some(PathBuf::from(it.next().ok_or("--replay needs a path")?)),
             "--extra-corpus" => a.extra.push(PathBuf::from(it.next().ok_or("--extra-corpus needs a dir")?)),
@@ -380,6 +383,7 @@ fn write_replay(root: &Path, id: &str, seed: u64, f: &Failure) -> PathBuf {
         "property": id,
         "engine": f.engine,
         "seed": seed,
+        "build": if vp_core::ZEROIZE { "mode crates built with their zeroize feature" } else { "default features" },
         "tape": hex(&f.tape),
         "decoded": f.desc,
         "sig": f.v.sig,
@@ -512,7 +516,7 @@ fn main() {
     }
 
     // --- generated search -----------------------------------------------------------------------
-    let cases = args.cases.unwrap_or(if args.tier == "quick" { p.quick_cases } else { p.thorough_cases });
+    let cases = args.cases.unwrap_or(if args.tier == "quick" { p.quick_cases } else { p.thorough_cases }) * args.scale_pct / 100;
     if failure.is_none() && cases > 0 {
         let threads = args.threads.max(1);
         let per = cases.div_ceil(threads as u64);
